@@ -214,13 +214,35 @@ def run(ctx):
                'saved value restored on exit (under the same condition it was saved)',
                'PushPropOverride does not restore the saved value on exit', construct='PushPropOverride')
     pe = m.methods('_PushEquationContext').get('__init__')
-    t = unparse(pe) if pe else ''
-    ok = "l2t.strict_latex_spaces['in-equations'] is not None" in t and \
-        "_parse_strict_latex_spaces_dict(l2t.strict_latex_spaces['in-equations'])" in t and \
-        "'strict_latex_spaces'" in t
-    ctx.decide('R03d', ok, m, pe or m.cls('_PushEquationContext'),
+    if pe is None:
+        raise AnalysisError('anchor vanished: _PushEquationContext.__init__')
+    from .. import symex
+    lp = pe.args.args[1].arg
+    pol_src = "%s.strict_latex_spaces['in-equations']" % lp
+    why = None
+    cases = symex.sink_cases(pe, lambda c: call_name(c) == '__init__' and isinstance(c.func, ast.Attribute)
+                             and isinstance(c.func.value, ast.Call) and call_name(c.func.value) == 'super')
+    if not cases:
+        why = 'the override is never installed (no super().__init__ call)'
+    for cs in cases:
+        a_ = cs.sub.args
+        if len(a_) != 3 or unparse(a_[0]) != lp or not (isinstance(a_[1], ast.Constant)
+                                                        and a_[1].value == 'strict_latex_spaces'):
+            why = 'the override is installed as %s' % short(cs.sub, 80)
+            break
+        v = symex.expand(a_[2], cs.env)
+        facts = symex.facts_of(cs.conds, cs.env)
+        isnone = (pol_src.replace("'", "'") + ' is None', True) in {(t_.replace('"', "'"), p_) for t_, p_ in facts}
+        if isinstance(v, ast.Constant) and v.value is None:
+            if not isnone:
+                why = 'no override is pushed although an in-equations policy may be set'
+        elif unparse(v).replace('"', "'") == '_parse_strict_latex_spaces_dict(%s)' % pol_src:
+            pass
+        else:
+            why = 'the value pushed is %s, not the parsed in-equations policy' % short(v, 70)
+    ctx.decide('R03d', why is None, m, pe,
                'in-equations policy parsed like a top-level policy and pushed on strict_latex_spaces',
-               '_PushEquationContext does not push the parsed in-equations policy',
+               '_PushEquationContext does not push the parsed in-equations policy: %s' % why,
                construct='_PushEquationContext.__init__')
 
     # ------------------------------------------------------------ R03e
@@ -255,14 +277,38 @@ def run(ctx):
                    "the equation context (%s): whitespace just inside the delimiters leaks into the "
                    "text / the equation policy is not applied" % (mode, [short(d, 70) for d in defs]),
                    construct='math content (%s)' % mode)
-    rets = [r for r in iter_own(mf) if isinstance(r, ast.Return) and any(
-        pol and unparse(t_) == "self.math_mode == 'text'" for t_, pol in atomic_facts(r))]
-    got = sorted(unparse(r.value) for r in rets)
-    ok = got == sorted(['content', 'self._fmt_indented_block(content)'])
-    disp_ok = all(('displaytype' in ' '.join(unparse(t_) for t_, pol in atomic_facts(r))) for r in rets)
-    ctx.decide('R03f', ok and disp_ok, m, rets[0] if rets else mf,
+    from .. import symex
+    disp_txt = "%s.isNodeType(latexwalker.LatexEnvironmentNode) or %s.displaytype == 'display'" % (np_, np_)
+    why = None
+    n_disp = n_inl = 0
+    for cs in symex.return_cases(mf):
+        facts = symex.facts_of(cs.conds, cs.env, methods=meths)
+        if ("self.math_mode == 'text'", True) not in facts:
+            continue
+        v = symex.expand(cs.sub, cs.env)
+        disp = [p_ for t_, p_ in facts if t_ == disp_txt]
+        if not disp:
+            # De Morgan form of the negative branch: both disjuncts known false
+            if (("%s.isNodeType(latexwalker.LatexEnvironmentNode)" % np_, False) in facts and
+                    ("%s.displaytype == 'display'" % np_, False) in facts):
+                disp = [False]
+        if not disp:
+            why = 'a text-mode result (%s) is not selected by the display test' % short(v, 60)
+            break
+        body = 'self.nodelist_to_text(%s.nodelist).strip()' % np_
+        if disp[0]:
+            n_disp += 1
+            if unparse(v) != 'self._fmt_indented_block(%s)' % body:
+                why = 'display math / math environments give %s, not the indented block of the content' % short(v, 70)
+        else:
+            n_inl += 1
+            if unparse(v) != body:
+                why = 'inline math gives %s, not the content itself' % short(v, 70)
+    if why is None and not (n_disp and n_inl):
+        why = 'text mode does not distinguish inline and display math'
+    ctx.decide('R03f', why is None, m, mf,
                'text mode: inline -> content, display/environment -> indented block',
-               'text mode returns %s' % got, construct='math text-mode returns')
+               'math_node_to_text (math_mode=text): %s' % why, construct='math text-mode returns')
     fb = meths.get('_fmt_indented_block')
     if fb is not None:
         v, why = indented_block_shape(fb)
@@ -335,11 +381,26 @@ def run(ctx):
                % ([(unparse(t_), pol) for t_, pol in atomic_facts(ps[0])] if ps else 'no path'),
                construct='nodelist_to_text: bare-macro post-space')
     bm = meths.get('_is_bare_macro_node')
-    t = unparse(bm) if bm else ''
-    ok = 'isNodeType(latexwalker.LatexMacroNode)' in t and 'node.nodeoptarg is None' in t and \
-        'len(node.nodeargs) == 0' in t
-    ctx.decide('R03h', ok, m, bm or nl, 'bare macro = macro node without optional and mandatory arguments',
-               '_is_bare_macro_node no longer means "macro node without any argument"',
+    if bm is None:
+        raise AnalysisError('anchor vanished: _is_bare_macro_node')
+    bp = bm.args.args[1].arg
+    need = [(bp + ' is None', False), (bp + '.isNodeType(latexwalker.LatexMacroNode)', True),
+            (bp + '.nodeoptarg is None', True),
+            ('%s.nodeargs is None or len(%s.nodeargs) == 0' % (bp, bp), True)]
+    why = None
+    n_true = 0
+    for cs in symex.return_cases(bm):
+        if isinstance(cs.sub, ast.Constant) and not cs.sub.value:
+            continue
+        n_true += 1
+        facts = symex.facts_of(cs.conds, cs.env, also=[cs.sub])
+        miss = [t_ for t_, p_ in need if (t_, p_) not in facts]
+        if miss:
+            why = 'a node counts as bare macro without %s' % miss
+    if not n_true:
+        why = 'never returns a true value'
+    ctx.decide('R03h', why is None, m, bm, 'bare macro = macro node without optional and mandatory arguments',
+               '_is_bare_macro_node no longer means "macro node without any argument": %s' % why,
                construct='_is_bare_macro_node')
 
     # ------------------------------------------------------------ R03i
